@@ -93,12 +93,6 @@ func verifH_C07_strkeys() {
 	verifReach("end")
 }
 
-// verifAvgOK: A is sum/n rounded to the nearest integer (either neighbour on an exact .5 tie).
-// n is concrete here (the harness case-splits on the group size).
-func verifAvgOK(A, sum int64, n int) bool {
-	d := sum - A*int64(n)
-	return verifAnd(2*d <= int64(n), 2*d >= -int64(n))
-}
 
 // H07: table t(g1, g2, v) with R symbolic rows (|values| < lim; v nullable by
 // choice), aggregate queries with and without GROUP BY; one result row per
